@@ -85,6 +85,7 @@ let () =
         Printf.printf "%s S %s absorbed=%d visible=%d\n" ln
           (match judge o with Holds -> "Holds" | Silent -> "Silent" | Unsafe -> "Unsafe")
           (if absorbed o then 1 else 0) (if visible o then 1 else 0)
+      | ln :: "skipped-after-hangs" :: _ -> Printf.printf "%s skip\n" ln
       | ln :: _ -> Printf.printf "%s skip\n" ln
       | [] -> print_endline "skip"
     done
